@@ -8,6 +8,7 @@ one open deviation, `appendIdLastWins` (`#a { &#b }` gives `#b`); `nestOld` = th
 through `Selector::unify`) and `suffixUnwrapPanics`.
 -/
 import RsassModel.Sel.NestLemmas
+import RsassModel.Sel.NestLemmas2
 
 namespace Sel.C19
 
@@ -146,5 +147,81 @@ theorem suffix_failure_old_panics :
     (sheetOutcome nestOld [.rule [.leaf (.mk false none [] [] none [⟨['b'], [], [], .none, none⟩] [])]
       [.rule [.leaf (.mk true (some ['-', 'x']) [] [] none [] [])] [.decl ['d']]]]).isPanic = true := by
   decide
+
+/-- `&-x` against an outer selector whose last compound ends in an id (`b #main { &-x }` →
+`b #main-x`), specification flags and the code today, both styles. -/
+theorem amp_suffix_id (q : NestQuirks) (hq : q.ampViaUnify = false) (cm : Bool) (s : Selector) (sfx i : List Char)
+    (e : Option (List Char)) (p : List (List Char)) (hs : s.compound = .mk false e p [] (some i) [] []) :
+    (resolveOne q s (.mk false (some sfx) [] [] none [] [])).map (Selector.print cm)
+      = [Selector.print cm s ++ sfx] := by
+  obtain ⟨ap, hap, hp⟩ := Compound.print_append_suffix_id cm e p i sfx (!q.appendIdLastWins)
+  simp only [resolveOne, hs, hap, hq, Bool.false_eq_true, if_false, List.map_cons, List.map_nil]
+  rw [Selector.print_setCompound_of cm s ap sfx (by rw [hs]; exact hp)]
+
+/-- `&-x` against an outer selector whose last compound is a bare element type other than `*`
+(`ul li { &-x }` → `ul li-x`), specification flags and the code today, both styles. -/
+theorem amp_suffix_elem (q : NestQuirks) (hq : q.ampViaUnify = false) (cm : Bool) (s : Selector) (sfx e : List Char)
+    (hs : s.compound = .mk false (some e) [] [] none [] []) (hstar : e.getLast? ≠ some '*')
+    (hany : elemIsAny e = false) :
+    (resolveOne q s (.mk false (some sfx) [] [] none [] [])).map (Selector.print cm)
+      = [Selector.print cm s ++ sfx] := by
+  obtain ⟨ap, hap, hp⟩ := Compound.print_append_suffix_elem cm e sfx hstar hany (!q.appendIdLastWins)
+  simp only [resolveOne, hs, hap, hq, Bool.false_eq_true, if_false, List.map_cons, List.map_nil]
+  rw [Selector.print_setCompound_of cm s ap sfx (by rw [hs]; exact hp)]
+
+example : ['l', 'i'].getLast? ≠ some '*' ∧ elemIsAny ['l', 'i'] = false := by decide
+
+/-- **No `&` survives** (every flag setting): when the outer selector list carries no `&`
+(the `CssSelectorSet` invariant), nothing that `Selector::resolve_ref` returns contains a `&` —
+not as a compound's backref and not, at any depth, inside a pseudo-class argument
+(`Selector.hasBackref` looks into every `PArg.sel`).  Mutual induction over the nested AST. -/
+theorem resolveRef_replaces_every_amp (q : NestQuirks) (ctx : SelSet)
+    (hctx : ∀ s ∈ ctx, s.hasBackref = false) (s : Selector) :
+    ∀ r ∈ Selector.resolveRef q ctx s, r.hasBackref = false :=
+  fun r hr => Selector.resolveRef_noBackref q ctx hctx s r hr
+
+/-- list form (`SelectorSet::resolve_ref`, used for pseudo-class arguments and `@at-root`) -/
+theorem resolveRef_set_replaces_every_amp (q : NestQuirks) (ctx : SelSet)
+    (hctx : ∀ s ∈ ctx, s.hasBackref = false) (sels : SelSet) :
+    SelSet.hasBackref (SelSet.resolveRef q ctx sels) = false := by
+  unfold SelSet.hasBackref SelSet.resolveRef
+  rw [Selector.hasBackrefList_false_iff]
+  intro x hx
+  obtain ⟨row, hrow, hxr⟩ := mem_roundRobin _ x hx
+  exact Selector.resolveRefRows_noBackref q ctx hctx sels row hrow x hxr
+
+/-- … and every pseudo-class argument that held a `&` is `&`-free afterwards, whatever the name -/
+theorem amp_in_pseudo_replaced (q : NestQuirks) (ctx : SelSet) (hctx : ∀ s ∈ ctx, s.hasBackref = false)
+    (p : Pseudo) : (Pseudo.resolveRef q ctx p).hasBackref = false :=
+  Pseudo.resolveRef_noBackref q ctx hctx p
+
+example : ∀ s ∈ ([.leaf (Compound.ofClass "a"), .rel .parent (.leaf (Compound.ofElem "b")) (Compound.ofClass "c")] : SelSet),
+    s.hasBackref = false := by decide
+
+/-- **Each `&` position holds the outer selector** (specification flags): resolving a compound
+`& rest` gives, for outer selectors of the list in order, the outer selector itself with its last
+compound extended by `rest` (`CompoundSelector::append`) — nothing else is produced. -/
+theorem amp_position_holds_outer (ctx : SelSet) (c : Compound) (hb : c.backref = true) :
+    ∀ r ∈ resolveCompound nestSpec ctx c,
+      ∃ s ∈ ctx, ∃ ap, Compound.appendWith true s.compound (c.setBackref false) = some ap ∧ r = s.setCompound ap := by
+  intro r hr
+  simp only [resolveCompound, hb, if_true] at hr
+  exact resolveOneList_spec_shape _ ctx r hr
+
+/-- **Declarations keep their source order**: the declaration names of all emitted blocks, read
+block after block, are the declaration names of the rule tree in source order (depth first) —
+for every flag setting, nesting depth and interleaving of declarations and nested rules. -/
+theorem decls_in_source_order (q : NestQuirks) (items : List Item) :
+    blockNames (sheetBlocks q items) = items.flatMap Item.declNames := by
+  have := evalSheet_names q items []
+  simpa [sheetBlocks, blockNames] using this
+
+/-- … under the innermost rule's resolved selector: a rule whose body is the declarations
+`d :: ds` emits exactly one block, `(the nested selector list, d :: ds)`, in whatever context. -/
+theorem decls_under_resolved_selector (q : NestQuirks) (ctx : Ctx) (out : List Block) (sels : SelSet)
+    (d : List Char) (ds : List (List Char)) :
+    Item.eval q ctx out (.rule sels ((d :: ds).map Item.decl)) = (ctx.nest q sels, d :: ds) :: out := by
+  simp only [Item.eval]
+  exact Item.evalBody_decls q _ _ out d ds
 
 end Sel.C19
